@@ -316,17 +316,20 @@ def hitRandomNotes (A : PArith F) (g : HitIn F) (noteCount : Int) (s : Osu) : M 
 /-- `has_special_column()` -/
 def hasSpecial (sample : Nat) : Bool := sampleHas sample S_CLAP && sampleHas sample S_FINISH
 
+/-- the per-key-count caps of `HitObjectPatternGenerator::get_random_note_count` -/
+def hitProbs (A : PArith F) (total : Nat) (p2 p3 p4 p5 : F) : F × F × F × F :=
+  if total = 2 then (A.pct 0, A.pct 0, A.pct 0, A.pct 0)
+  else if total = 3 then (A.min p2 (A.pct 10), A.pct 0, A.pct 0, A.pct 0)
+  else if total = 4 then (A.min p2 (A.pct 23), A.min p3 (A.pct 4), A.pct 0, A.pct 0)
+  else if total = 5 then (p2, A.min p3 (A.pct 15), A.min p4 (A.pct 3), A.pct 0)
+  else (p2, p3, p4, p5)
+
 /-- `HitObjectPatternGenerator::get_random_note_count(p2, p3, p4, p5)` -/
 def hitNoteCount (A : PArith F) (g : HitIn F) (p2 p3 p4 p5 : F) (s : Osu) : Int × Osu :=
-  let z := A.pct 0
-  let (p2, p3, p4, p5) :=
-    if g.total = 2 then (z, z, z, z)
-    else if g.total = 3 then (A.min p2 (A.pct 10), z, z, z)
-    else if g.total = 4 then (A.min p2 (A.pct 23), A.min p3 (A.pct 4), z, z)
-    else if g.total = 5 then (p2, A.min p3 (A.pct 15), A.min p4 (A.pct 3), z)
-    else (p2, p3, p4, p5)
-  let p2 := if sampleHas g.sample S_CLAP then A.pct 100 else p2
-  noteCount A s p2 p3 p4 p5 z
+  noteCount A s
+    (if sampleHas g.sample S_CLAP then A.pct 100 else (hitProbs A g.total p2 p3 p4 p5).1)
+    (hitProbs A g.total p2 p3 p4 p5).2.1 (hitProbs A g.total p2 p3 p4 p5).2.2.1
+    (hitProbs A g.total p2 p3 p4 p5).2.2.2 (A.pct 0)
 
 /-- `generate_random_pattern(p2, p3, p4, p5)` -/
 def hitRandomPattern (A : PArith F) (g : HitIn F) (p2 p3 p4 p5 : F) (s : Osu) : M (Pat × Osu) := do
@@ -337,26 +340,26 @@ def hitRandomPattern (A : PArith F) (g : HitIn F) (p2 p3 p4 p5 : F) (s : Osu) : 
     .ok (pat', s2)
   else .ok (pat, s2)
 
+/-- the per-key-count adjustments of `get_random_note_count_mirrored`: (centre, p2, p3) before the
+clamp -/
+def mirrorProbs (A : PArith F) (total : Nat) (centre p2 p3 : F) : F × F × F :=
+  if total = 2 then (A.pct 0, A.pct 0, A.pct 0)
+  else if total = 3 then (A.min centre (A.pct 3), A.pct 0, A.pct 0)
+  else if total = 4 then
+    (A.pct 0, A.sub (A.pct 100) (A.max (A.mul (A.sub (A.pct 100) p2) (A.pct 200)) (A.pct 80)), A.pct 0)
+  else if total = 5 then (A.min centre (A.pct 3), p2, A.pct 0)
+  else if total = 6 then
+    (A.pct 0, A.sub (A.pct 100) (A.max (A.mul (A.sub (A.pct 100) p2) (A.pct 200)) (A.pct 5)),
+      A.sub (A.pct 100) (A.max (A.mul (A.sub (A.pct 100) p3) (A.pct 200)) (A.pct 85)))
+  else (centre, p2, p3)
+
 /-- `get_random_note_count_mirrored(centre_probability, p2, p3)` -/
 def hitNoteCountMirrored (A : PArith F) (g : HitIn F) (centre p2 p3 : F) (s : Osu) :
     (Int × Bool) × Osu :=
-  let z := A.pct 0
-  let one := A.pct 100
-  let two := A.pct 200
-  let (centre, p2, p3) :=
-    if g.total = 2 then (z, z, z)
-    else if g.total = 3 then (A.min centre (A.pct 3), z, z)
-    else if g.total = 4 then (z, A.sub one (A.max (A.mul (A.sub one p2) two) (A.pct 80)), z)
-    else if g.total = 5 then (A.min centre (A.pct 3), p2, z)
-    else if g.total = 6 then
-      (z, A.sub one (A.max (A.mul (A.sub one p2) two) (A.pct 5)),
-        A.sub one (A.max (A.mul (A.sub one p3) two) (A.pct 85)))
-    else (centre, p2, p3)
-  let p2 := A.clamp01 p2
-  let p3 := A.clamp01 p3
+  let q := mirrorProbs A g.total centre p2 p3
   let (centreVal, s1) := nextDouble A s
-  let (n, s2) := noteCount A s1 p2 p3 z z z
-  let addToCentre := g.total % 2 != 0 && n != 3 && A.gt centreVal (A.sub one centre)
+  let (n, s2) := noteCount A s1 (A.clamp01 q.2.1) (A.clamp01 q.2.2) (A.pct 0) (A.pct 0) (A.pct 0)
+  let addToCentre := g.total % 2 != 0 && n != 3 && A.gt centreVal (A.sub (A.pct 100) q.1)
   ((n, addToCentre), s2)
 
 /-- the loop of `generate_random_pattern_with_mirrored` -/
